@@ -175,34 +175,6 @@ def cxSem : Sem := { baseSem with
 theorem cxSem_hyp : Hyp cxSem :=
   hyp_of cxSem rfl rfl rfl rfl rfl (fun src => ⟨src, rfl⟩) (fun _ t vs => ⟨t ++ vs.flatten, rfl⟩)
 
-/-- what a dependant sees of a module in `dirSem`: a mark taken from the module's own text -/
-def mark (tree : Str) : Char := match tree.head? with
-  | some c => if c = '}' then 'x' else c
-  | none => 'x'
-
-theorem mark_ne (tree : Str) : mark tree ≠ '}' := by
-  unfold mark; split
-  · split
-    · decide
-    · assumption
-  · decide
-
-/-- the same graph, but a dependant sees only the first character of an import's table, which comes from the import's own
-    text: inferred symbols depend on direct imports only -/
-def dirSem : Sem := { cxSem with
-  analyse := fun _ tree vs => closeX (mark tree :: (tree ++ vs.flatten))
-  view := fun t => t.take 1 }
-
-def dirLoc (_ tree : Str) : Str := [mark tree]
-
-theorem dirSem_hyp : Hyp dirSem :=
-  hyp_of dirSem rfl rfl rfl rfl rfl (fun src => ⟨src, rfl⟩) (fun _ t vs => ⟨mark t :: (t ++ vs.flatten), rfl⟩)
-
-theorem dirSem_direct : DirectOnly dirSem dirLoc := by
-  intro k tree vs
-  have h : mark tree ≠ '}' := mark_ne tree
-  simp [dirSem, dirLoc, closeX, List.filter_cons, h]
-
 def cxWorld : World := { order := [['a'], ['b'], ['c']] }
 /-- build, change the leaf `c`, (then build again) -/
 def cxHist : List Op := [.edit ['c'] [c1], .edit ['b'] [c3], .edit ['a'] [c4], .run true, .edit ['c'] [c2]]
@@ -222,9 +194,9 @@ theorem add_last (ds : List Str) (xs : List Str) (d : Str) :
 
 theorem mkdirs_mem (w : World) (d : Str) : d ∈ (w.mkdirs d).dirs := add_last _ _ _
 
-theorem dirHist_acyclic : Acyclic dirSem cxWorld cxHist := by
+theorem cxHist_acyclic : Acyclic cxSem cxWorld cxHist := by
   refine ⟨trivial, trivial, trivial, ?_, trivial, trivial⟩
-  show (run dirSem _ true).cyc = false
+  show (run cxSem _ true).cyc = false
   decide +kernel
 
 def srcInt : Str → Str := fun k => if k = ['a'] then [c4] else if k = ['b'] then [c3] else [c1]
